@@ -449,13 +449,14 @@ def child_main(sb, world, plan, wfd):
     os._exit(0)
 
 
-def run_world(world, plan=None, keep=None):
+def run_world(world, plan=None, keep=None, facts=None):
     """build the world, run the command in a forked child, return the observation"""
     import_repo()
     sb = Sandbox()
     try:
         sb.build(world)
         before = sb.snapshot()
+        fact_values = facts(sb, world) if facts is not None else None
         rfd, wfd = os.pipe()
         pid = os.fork()
         if pid == 0:
@@ -490,7 +491,7 @@ def run_world(world, plan=None, keep=None):
             "before": before, "after": after,
             "states": [[(bytes.fromhex(p), k, bytes.fromhex(d), m, t, bytes.fromhex(g)) for (p, k, d, m, t, g) in s]
                        for s in res["states"]],
-            "t0": res.get("t0"), "t1": res.get("t1"),
+            "t0": res.get("t0"), "t1": res.get("t1"), "facts": fact_values,
         }
         if res["escapes"]:
             obs["escaped"] = True
